@@ -2,7 +2,7 @@
 From Coq Require Import Permutation.
 From CR Require Import Base Atomic Machine LinksFacts HeapFacts TraceFacts TraceTotal Local StackBound
   Termination Perm StdRc StdRefine Tokens InvDef InvLemmas ActBase ActHandles ActAdopt ActMove ActConsume
-  StepFrames StepPanic Purge GroupOps DropDec Group DropLast StepInv RunInv Consequences OrphanComplete Common.
+  StepFrames StepPanic Purge GroupOps DropDec Group DropLast StepInv RunInv Consequences OrphanComplete PidInv DtorsRun Common.
 Local Open Scope N_scope.
 
 (** nothing stays alive without a handle: an object whose last strong handle
@@ -86,6 +86,28 @@ Theorem C03_orphan_test_exact :
       m <= sumN (map (fun x => lget (heap_of s) x (y, Fwd)) R))).
 Proof. exact orphan_test_exact. Qed.
 Print Assumptions C03_orphan_test_exact.
+
+(** "... are destroyed before the drop returns": whenever a call returns (normally
+    or by a propagated panic), every value that any step of that call queued for
+    destruction — in particular every member of a group collected by a drop
+    inside that call — has had its destructor started; for EVERY run, no
+    hypothesis at all *)
+Theorem C03_group_destroyed_before_return :
+  forall pri fuel s op s' out s1 self1 r push n c0 c1 o k es keys,
+  exec_op pri fuel s op = (s', out) -> returned out ->
+  call_start s op = AO s1 self1 r push ->
+  run pri n (call_cfg s1 push) = Running c0 ->
+  stack c0 = FDropStrong o :: k -> step pri c0 = Running c1 ->
+  stack c1 = FInners es :: FFinishGroup keys :: k ->
+  forall e, In e es -> In (pid (snd (fst e))) (dtor_log s').
+Proof. exact DtorsRun.C03_group_destroyed_before_return. Qed.
+Print Assumptions C03_group_destroyed_before_return.
+
+Theorem C03_queued_destructors_run_in_order :
+  forall pri fuel c s' b, run pri fuel c = Finished s' b ->
+  exists l, dtor_log s' = l ++ dtor_log (st c) /\ subseq (rev (stack_pend (stack c))) l.
+Proof. exact queued_dtors_run_in_order. Qed.
+Print Assumptions C03_queued_destructors_run_in_order.
 
 (** KNOWN FINDING D3 (not a theorem about what should hold, but a proof of what
     the code does): a self handle recorded through the SAME handle object
